@@ -10,6 +10,7 @@ package main
 // sample is printed in full for the Coq model / Spec.v and for CPython.
 
 import (
+	"bytes"
 	"flag"
 	"fmt"
 	"os"
@@ -173,7 +174,9 @@ func (st *siteT) src(idx int) string {
 	if st.HasD {
 		as = append(as, "**D")
 	}
-	return fmt.Sprintf("def s%d(S, D): return f(%s)", idx, strings.Join(as, ", "))
+	// the result is observed LATE: after the call the site keeps evaluating multi-operand
+	// expressions at the same operand-stack depth, and only then returns what f returned
+	return fmt.Sprintf("def s%d(S, D):\n  r = f(%s)\n  _j(981, 982, 983, 984, 985, 986, 987, 988)\n  _t = [971, 972, 973, 974, 975, 976, 977]\n  return r", idx, strings.Join(as, ", "))
 }
 
 // the call as one expression, valid Starlark and Python
@@ -578,6 +581,7 @@ type jCase struct {
 	Classes []string `json:"classes"`
 	Def     string   `json:"def"`
 	Src     string   `json:"src"`
+	Mode    string   `json:"mode"` // "" | "late-module" | "roundtrip"
 	Coq     bool     `json:"coq"`
 	Py      bool     `json:"py"`
 }
@@ -684,6 +688,8 @@ func mkDict(D *dstarOpt) starlark.Value {
 }
 
 type sigResult struct {
+	roundtrips int
+	lates      int
 	cases      []*jCase
 	total      int
 	mismatches int
@@ -756,7 +762,7 @@ func bindMain(argv []string) {
 		go func() {
 			defer wg.Done()
 			for j := range ch {
-				results[j.idx] = runSig(j.idx, j.s, j.sites, stars, j.ds, *seed, pcoq, ppy)
+				results[j.idx] = runSig(j.idx, j.s, j.sites, stars, j.ds, *seed, pcoq, ppy, *frac < 1)
 			}
 		}()
 	}
@@ -770,8 +776,10 @@ func bindMain(argv []string) {
 	wg.Wait()
 
 	dist := map[string]int{}
-	nm, ntot := 0, 0
+	nm, ntot, nrt, nlate := 0, 0, 0, 0
 	for _, r := range results {
+		nrt += r.roundtrips
+		nlate += r.lates
 		if r.fatal != "" {
 			fmt.Fprintln(os.Stderr, "c08 bind:", r.fatal)
 			os.Exit(1)
@@ -785,7 +793,7 @@ func bindMain(argv []string) {
 		nm += r.mismatches
 		ntot += r.total
 	}
-	hx.Emit(map[string]any{"kind": "summary", "signatures": len(sigs), "cases": ntot, "mismatches": nm, "dist": dist, "frac": *frac})
+	hx.Emit(map[string]any{"kind": "summary", "signatures": len(sigs), "cases": ntot, "mismatches": nm, "dist": dist, "frac": *frac, "roundtrip_cases": nrt, "late_module_calls": nlate})
 	hx.Flush()
 }
 
@@ -799,13 +807,13 @@ func safeCall(thread *starlark.Thread, fn starlark.Value, args starlark.Tuple, k
 	return starlark.Call(thread, fn, args, kwargs)
 }
 
-func runSig(idx int, s *sigT, sites []*siteT, stars []*starOpt, ds []*dstarOpt, seed uint64, pcoq, ppy uint64) *sigResult {
+func runSig(idx int, s *sigT, sites []*siteT, stars []*starOpt, ds []*dstarOpt, seed uint64, pcoq, ppy uint64, rtAll bool) *sigResult {
 	res := &sigResult{dist: map[string]int{}}
 	if len(sites) == 0 {
 		return res
 	}
 	var src strings.Builder
-	src.WriteString(s.def() + "\n")
+	src.WriteString(s.def() + "\ndef _j(*a): return None\n")
 	for k, st := range sites {
 		src.WriteString(st.src(k) + "\n")
 	}
@@ -815,6 +823,43 @@ func runSig(idx int, s *sigT, sites []*siteT, stars []*starOpt, ds []*dstarOpt, 
 		res.fatal = fmt.Sprintf("signature %q does not execute: %v", s.def(), err)
 		return res
 	}
+	// the same module after a serialization round trip (Program.Write -> CompiledProgram -> Init)
+	var globalsRT starlark.StringDict
+	rtErr := ""
+	func() {
+		defer func() {
+			if r := recover(); r != nil {
+				rtErr = fmt.Sprintf("panic: %v", r)
+			}
+		}()
+		_, prog, err := starlark.SourceProgramOptions(&syntax.FileOptions{}, "sig.star", src.String(), func(string) bool { return false })
+		if err != nil {
+			rtErr = err.Error()
+			return
+		}
+		var buf bytes.Buffer
+		if err := prog.Write(&buf); err != nil {
+			rtErr = err.Error()
+			return
+		}
+		prog2, err := starlark.CompiledProgram(&buf)
+		if err != nil {
+			rtErr = err.Error()
+			return
+		}
+		g2, err := prog2.Init(&starlark.Thread{Name: "c08rt"}, nil)
+		if err != nil {
+			rtErr = err.Error()
+			return
+		}
+		globalsRT = g2
+	}()
+	if rtErr != "" {
+		res.fatal = fmt.Sprintf("signature %q does not survive Program.Write/CompiledProgram: %s", s.def(), rtErr)
+		return res
+	}
+	threadRT := &starlark.Thread{Name: "c08rt"}
+	lateModule(res, s)
 	starVals := make([]starlark.Value, len(stars))
 	for i, S := range stars {
 		starVals[i] = mkStar(S)
@@ -877,6 +922,24 @@ func runSig(idx int, s *sigT, sites []*siteT, stars []*starOpt, ds []*dstarOpt, 
 				}
 				coq := (h & 0xffffffff) < pcoq*w
 				py := ((h >> 32) & 0xffffffff) < ppy*w
+				// every case in the sampled tiers, one in eight in the full product: the same call on the reloaded module
+				if ok && (rtAll || h%8 == 0) {
+					v2, err2 := safeCall(threadRT, globalsRT[fmt.Sprintf("s%d", k)], args, nil)
+					obs2 := observe(v2, err2)
+					res.roundtrips++
+					if !sameOutcome(obs2, spec, true, npos) {
+						res.mismatches++
+						key := fmt.Sprintf("rt/%s/%s/%v/%v", obs2.Err, spec.Err, st.HasS, st.HasD)
+						mismatchKeys[key]++
+						if mismatchKeys[key] <= 2 {
+							c := mkCase("mismatch", s, st, S, D, obs2, spec, classes)
+							c.Mode = "roundtrip"
+							c.Coq, c.Py = true, false
+							res.cases = append(res.cases, c)
+						}
+						continue
+					}
+				}
 				if !ok {
 					res.mismatches++
 					key := fmt.Sprintf("%s/%s/%v/%v", obs.Err, spec.Err, st.HasS, st.HasD)
@@ -897,4 +960,85 @@ func runSig(idx int, s *sigT, sites []*siteT, stars []*starOpt, ds []*dstarOpt, 
 		}
 	}
 	return res
+}
+
+// lateModule: calls made at MODULE level whose results are kept in a global list while the
+// module goes on evaluating other calls and displays; the kept results are compared after
+// the module has finished (they must neither change nor alias one another).
+func lateModule(res *sigResult, s *sigT) {
+	type kept struct {
+		st   *siteT
+		spec outcome
+		cls  []string
+	}
+	var ks []kept
+	var src strings.Builder
+	src.WriteString(s.def() + "\ndef _j(*a): return None\nKEEP = []\n")
+	for round := 0; round < 2; round++ {
+		for npos := 0; npos <= 4; npos++ {
+			// name every required parameter that is not filled positionally
+			st := &siteT{NPos: npos}
+			i := 0
+			for _, r := range s.Req {
+				if i >= npos {
+					st.Named = append(st.Named, kv{r, 201 + 10*round + i})
+				}
+				i++
+			}
+			for j, k := range s.Kwonly {
+				if k.D == 0 {
+					st.Named = append(st.Named, kv{k.Name, 231 + 10*round + j})
+				}
+			}
+			spec, classes := specBind(s, st, nil, nil)
+			if spec.Err != "" {
+				continue
+			}
+			var as []string
+			for p := 0; p < npos; p++ {
+				as = append(as, fmt.Sprint(101+p))
+			}
+			for _, n := range st.Named {
+				as = append(as, fmt.Sprintf("%s=%d", n.K, n.V))
+			}
+			fmt.Fprintf(&src, "KEEP.append(f(%s))\n_j(981, 982, 983, 984, 985, 986, 987, 988)\n[971, 972, 973, 974, 975, 976, 977]\n", strings.Join(as, ", "))
+			ks = append(ks, kept{st, spec, classes})
+		}
+	}
+	if len(ks) == 0 {
+		return
+	}
+	var g starlark.StringDict
+	var err error
+	func() {
+		defer func() {
+			if r := recover(); r != nil {
+				err = fmt.Errorf("panic: %v", r)
+			}
+		}()
+		g, err = starlark.ExecFileOptions(&syntax.FileOptions{}, &starlark.Thread{Name: "c08late"}, "late.star", src.String(), nil)
+	}()
+	var list *starlark.List
+	if err == nil {
+		list, _ = g["KEEP"].(*starlark.List)
+	}
+	for i, k := range ks {
+		res.lates++
+		var obs outcome
+		if err != nil || list == nil || i >= list.Len() {
+			obs = outcome{Err: fmt.Sprintf("other:module did not finish: %v", err)}
+		} else {
+			obs = observe(list.Index(i), nil)
+		}
+		if !sameOutcome(obs, k.spec, true, k.st.NPos) {
+			res.mismatches++
+			c := mkCase("mismatch", s, k.st, nil, nil, obs, k.spec, k.cls)
+			c.Mode = "late-module"
+			c.Coq, c.Py = true, false
+			res.cases = append(res.cases, c)
+			if len(res.cases) > 6 {
+				break
+			}
+		}
+	}
 }
